@@ -45,6 +45,7 @@ Judge(r) ==
       /\ Flag(C19_WithdrawFee(e), "C19", "WithdrawFee", r, t)
       /\ Flag(C19_ChequePays(rd, e), "C19", "ChequePays", r, t)
       /\ Flag(C19_ChequeAccepted(e), "C19", "ChequeAccepted", r, t)
+      /\ Flag(C19_FeeApproved(rd, e), "C19", "FeeApproved", r, t)
       /\ Flag(C19_CandidateFee(e), "C19", "CandidateFee", r, t)
       /\ Flag(C19_Conservation(e), "C19", "Conservation", r, t)
       /\ Flag(C19_EmitOnlyOwnNode(e), "C19", "EmitOnlyOwnNode", r, t)
